@@ -259,13 +259,27 @@ func spikeShape(g *stream) concaveShape {
 func genConcave(rt *rapid.T, emit func(c Case, group string)) {
 	o := drawO(rt)
 	g := newStream(rt)
-	fams := []string{"comb", "comb", "notch", "notch", "spikes"}
+	fams := []string{"comb", "comb", "notch", "notch", "spikes", "sliver"}
 	if f := os.Getenv("VERIF_C16_FAMILY"); f != "" { // development aid: one family only
 		fams = []string{f}
 	}
 	family := rapid.SampledFrom(fams).Draw(rt, "family")
+	sym := rapid.IntRange(0, 7).Draw(rt, "symmetry")
+	tr := drawTransform(g, false)
 	var sh concaveShape
 	switch family {
+	case "sliver":
+		// the narrowest feature that is still above the rounding granularity of the transformed coordinates
+		maxAbs := 0.0
+		for _, p := range []orb.Point{{0, 0}, {10, 0}, {0, 10}, {10, 10}} {
+			q := tr.pt(dihedral(sym, p))
+			maxAbs = math.Max(maxAbs, math.Max(math.Abs(q[0]), math.Abs(q[1])))
+		}
+		f := math.Abs(tr.s)
+		if tr.pow != 0 {
+			f *= tr.pow
+		}
+		sh = sliverShape(g, 256*ulp*maxAbs/f)
 	case "comb":
 		sh = combShape(g)
 	case "notch":
@@ -274,8 +288,6 @@ func genConcave(rt *rapid.T, emit func(c Case, group string)) {
 		sh = spikeShape(g)
 	}
 	stats.Class("concave family:" + family)
-	sym := rapid.IntRange(0, 7).Draw(rt, "symmetry")
-	tr := drawTransform(g, false)
 	if tr.name != "identity" {
 		stats.Class("transformed")
 	}
@@ -316,9 +328,35 @@ func genConcave(rt *rapid.T, emit func(c Case, group string)) {
 	emit(c, "concave-"+family)
 }
 
+// sliverShape: a square covering the box except for a notch that is extremely narrow where it passes the
+// box side (width log-uniform between lo – a few hundred ulps of the coordinates – and 1e-3 of the box):
+// the piece inside the box leaves and re-enters through the same side at two distinct, nearly coincident
+// points, and the correct completion is a full lap around the box.
+func sliverShape(g *stream, lo float64) concaveShape {
+	b := orb.Bound{Min: orb.Point{2 + g.rng("bx0", -0.3, 0.3), 2 + g.rng("by0", -0.3, 0.3)}, Max: orb.Point{8 + g.rng("bx1", -0.3, 0.3), 8 + g.rng("by1", -0.3, 0.3)}}
+	hi := 1e-3 * 6
+	if lo > hi {
+		lo = hi
+	}
+	w := math.Exp(g.rng("logw", math.Log(lo), math.Log(hi)))
+	c := g.rng("c", 3, 7)
+	t := g.rng("t", 3, 7)
+	d := w * (10 - t) / (2 * (b.Max[1] - t))
+	outer := []orb.Point{{0, 0}, {10, 0}, {10, 10}, {c + d, 10}, {c, t}, {c - d, 10}, {0, 10}}
+	switch {
+	case w < 1e-11*6:
+		stats.Class("sliver:notch narrower than 1e-11 of the box")
+	case w < 1e-8*6:
+		stats.Class("sliver:notch narrower than 1e-8 of the box")
+	default:
+		stats.Class("sliver:notch wider than 1e-8 of the box")
+	}
+	return concaveShape{kind: "polygon", polys: [][][]orb.Point{{outer}}, box: b, aims: []orb.Point{{c, t}}}
+}
+
 func TestPropConcave(t *testing.T) {
 	assumptions()
-	stats.Check(t, 80000, 1500000, func(rt *rapid.T) {
+	stats.Check(t, 70000, 1500000, func(rt *rapid.T) {
 		genConcave(rt, func(c Case, group string) { runCase(rt, "TestPropConcave", c, group) })
 	})
 }
